@@ -147,6 +147,20 @@ pub fn run(ctx: &Ctx) -> Outcome {
                     }
                 }
             }
+            if shard == 2 {
+                for (a, t, d) in refs::coincidence_frames() {
+                    check_frame(a, t, &d, false, rep);
+                    check_frame(a, t, &d, true, rep);
+                    rep.count("coincidence_frames");
+                }
+            }
+            // the address must not matter — least of all an address made of the frame's own type and first byte
+            for first in 0..=255u8 {
+                for addr in [u16::from(ty) << 8 | u16::from(first), u16::from(first) << 8 | u16::from(ty), u16::from(ty) * 0x0101, u16::from(first) * 0x0101] {
+                    check_frame(addr, ty, &[first], first % 2 == 0, rep);
+                    check_frame(addr, ty, &[first, ty], first % 2 == 1, rep);
+                }
+            }
             if shard == 1 {
                 // data chunks that LOOK like something else: the 16-byte configuration block of every sign type (and the
                 // same block with one byte changed, at other offsets, a byte longer or shorter), chunks that begin like
@@ -239,6 +253,7 @@ pub fn run(ctx: &Ctx) -> Outcome {
     let mut floors = vec![
         floor("data chunks carrying configuration blocks and page headers", report.get("config_like_chunks") == 44, report.get("config_like_chunks")),
         floor("every one-byte code followed by 1..254 further bytes", report.get("codes_at_longer_lengths") > 15_000, report.get("codes_at_longer_lengths")),
+        floor("frames whose fields coincide (all fields one value, for every value; checksum equal to another field or to a syntax byte)", report.get("coincidence_frames") == 2240, report.get("coincidence_frames")),
         floor("all 256 message types swept against all 256 first bytes", report.get("types_swept") == 256, report.get("types_swept")),
         floor("all 65536 addresses swept for every code", report.get("addresses_swept") == 65_536, report.get("addresses_swept")),
     ];
